@@ -1,5 +1,6 @@
 import Pegnet.Sync
 import Pegnet.Codec
+import Pegnet.Json
 import Pegnet.VersionLock
 /-
   Line protocol driver: one command per line on stdin, one answer line on stdout (a dump is a
@@ -217,6 +218,50 @@ structure St where
 def tmapStr (m : TMap) : String :=
   ",".intercalate (m.map fun p => toString p.1 ++ "=" ++ toString p.2)
 
+/-- decode a hex-encoded UTF-8 string exactly (invalid UTF-8 never reaches the model) -/
+def unhexUtf8 (s : String) : String :=
+  if s == "-" then "" else
+  let rec go : List Char → List UInt8
+    | a :: b :: rest => UInt8.ofNat (hexDigit a * 16 + hexDigit b) :: go rest
+    | _ => []
+  match String.fromUTF8? (ByteArray.mk (go s.toList).toArray) with
+  | some t => t
+  | none => unhex s
+
+/-- token tree: `n` | `t` | `f` | `# lexhex` | `s lexhex valhex addr|-` | `[ k items…` | `{ k (keylexhex keyhex value)…` -/
+partial def jtree : Parser J := do
+  let t ← tok
+  match t with
+  | "n" => pure .null
+  | "t" => pure .tru
+  | "f" => pure .fals
+  | "#" => do let l ← tok; pure (.num (unhexUtf8 l))
+  | "s" => do
+      let l ← tok; let v ← tok; let a ← tok
+      pure (.str (unhexUtf8 l) (unhexUtf8 v) (if a == "-" then none else some a))
+  | "[" => do
+      let k ← nat
+      let rec items : Nat → Parser (List J)
+        | 0 => pure []
+        | n + 1 => do let x ← jtree; let xs ← items n; pure (x :: xs)
+      let xs ← items k
+      pure (.arr xs)
+  | "{" => do
+      let k ← nat
+      let rec fields : Nat → Parser (List (String × String × J))
+        | 0 => pure []
+        | n + 1 => do
+          let kl ← tok; let kv ← tok; let v ← jtree
+          let fs ← fields n
+          pure ((unhexUtf8 kl, unhexUtf8 kv, v) :: fs)
+      let fs ← fields k
+      pure (.obj fs)
+  | _ => failure
+
+def renderTx (t : Tx) : String :=
+  t.inAddr ++ "/" ++ toString t.inType ++ "/" ++ toString t.inAmount ++ "/" ++ toString t.conversion ++ "/" ++
+    ",".intercalate (t.transfers.map fun tr => tr.addr ++ ":" ++ toString tr.amount)
+
 def step (st : St) (line : String) : St × List String :=
   let toks := (line.trimAscii.toString.splitOn " ").filter (· != "")
   match toks with
@@ -372,7 +417,13 @@ def step (st : St) (line : String) : St × List String :=
             | some l => "ok " ++ toString l.length ++ String.join (l.map fun x => " " ++ x.1 ++ " " ++ toString x.2)])
     | _ => (st, ["bad-op"])
   | "json" :: rest =>
-    (st, [Codec.runLine rest])
+    -- json <token tree>  → decoded batch as `TransactionBatch.UnmarshalJSON` leaves it, or reject
+    match jtree.run rest with
+    | some (j, []) =>
+      (st, [match decBatch st.P j with
+            | none => "reject len=" ++ toString j.len
+            | some (v, txs) => "ok len=" ++ toString j.len ++ " v=" ++ toString v ++ String.join (txs.map fun t => " " ++ renderTx t)])
+    | _ => (st, ["bad-op"])
   | _ => (st, ["bad-op"])
 
 partial def loop (h : IO.FS.Stream) (out : IO.FS.Stream) (st : St) : IO Unit := do
